@@ -18,6 +18,7 @@ type batch struct {
 	cont  bool
 	exit  int
 	out   string
+	tag   string // "short-net": scripts whose guards use [short] / [net] (reported under their own oracle name)
 }
 
 func harnessDir() string {
@@ -80,7 +81,21 @@ func (rn *runner) cliMain(r *common.RNG, nBatch int) {
 		}
 		cc := *c
 		cc.NoMain = true
-		batches = append(batches, &batch{cases: []*Case{&cc}, cont: c.Coe})
+		tag := ""
+		if strings.HasPrefix(c.Note, "cli-short-net") {
+			tag = "short-net"
+		}
+		batches = append(batches, &batch{cases: []*Case{&cc}, cont: c.Coe, tag: tag})
+	}
+	// [short] and [net] ask testing.Short(): the standalone command must answer them like any other
+	// predefined condition (scripts in which every line meets its demand: exit status 0)
+	for i, lines := range [][]string{
+		{"[short] mkdir a", "[!short] mkdir b", "exists b", "! exists a"},
+		{"[net] mkdir a", "[!net] mkdir b", "exists a", "! exists b"},
+		{"[!short] [net] exec " + helperName + " echo ok", "stdout ok"},
+		{"[linux] [short] exists nope"},
+	} {
+		batches = append(batches, &batch{cases: []*Case{{ID: fmt.Sprintf("shortnet%d", i), Kind: "cli", NoMain: true, Lines: lines}}, tag: "short-net"})
 	}
 	for i := 0; i < nBatch; i++ {
 		b := &batch{cont: r.Chance(1, 2)}
@@ -110,7 +125,14 @@ func (rn *runner) cliMain(r *common.RNG, nBatch int) {
 
 func (rn *runner) cliModel(b *batch) string {
 	toks := append([]string{"cli"}, cfgTokens(b.cases[0])...)
-	toks = append(toks, envToken([]string{"PATH=" + os.Getenv("PATH")}))
+	// the initial variables of a script but WORK and TMPDIR, which the driver derives from the job
+	env := []string{"PATH=" + os.Getenv("PATH")}
+	for _, kv := range envTemplate {
+		if !strings.HasPrefix(kv, "WORK=") && !strings.HasPrefix(kv, "TMPDIR=") && !strings.HasPrefix(kv, "PATH=") {
+			env = append(env, kv)
+		}
+	}
+	toks = append(toks, envToken(env))
 	var jobs []string
 	for i, c := range b.cases {
 		jobs = append(jobs, hx(fmt.Sprintf("/W/script-s%d", i))+"|"+common.Hex(c.fileBytes()))
@@ -187,10 +209,20 @@ func (rn *runner) judgeBatch(bin string, b *batch) {
 		inp := rn.input(shr)
 		inp["cli"] = fmt.Sprintf("testscript%s s0.txtar", map[bool]string{true: " -continue", false: ""}[shr.Coe])
 		key := "cli-exit:" + strings.Join(shr.Lines, ";")
-		res.Violate(common.Violation{Kind: "impl-violation", Oracle: "cli-exit-status", Input: inp, Key: key,
+		oracle := "cli-exit-status"
+		if b.tag == "short-net" {
+			key, oracle = "cli-short-net-crash:"+strings.Join(shr.Lines, ";"), "cli-short-net-crash"
+		}
+		res.Violate(common.Violation{Kind: "impl-violation", Oracle: oracle, Input: inp, Key: key,
 			Impl:   fmt.Sprintf("exit status %d\n%s", one.exit, tail(one.out, 800)),
 			Model:  fmt.Sprintf("independent evaluation: verdict %v, so exit status %d", vs, w),
 			Detail: fmt.Sprintf("cmd/testscript exits 0 exactly when no script failed; batch verdicts by evaluation %v, exit status %d", verdicts, b.exit)})
+	}
+	if b.tag == "short-net" {
+		res.Count("cli:short-net-scripts")
+		if known && want != b.exit {
+			return // reported above under its own name; the model describes the repaired behaviour
+		}
 	}
 	ans := rn.cliModel(b)
 	if strings.Contains(ans, "racy=1") || strings.Contains(ans, "unmod=1") {
